@@ -219,3 +219,18 @@ def run(ctx):
             seen.add(key)
             ctx.inst("R16.5", key, bool(base_ok), ctx.world.fn(fname).where(),
                      "stores VammMap with last_restriction_block = %s (%s)" % (sym.show(lrbi, 6), base_ok or "NEITHER the loaded marker NOR a block height: a funding/other update would clear or forge the restriction"))
+
+    # ---------------------------------------------------------------- R16.6
+    # the restriction check reads the block stamp from the stored position; a reply that REMOVES the record drops the
+    # stamp, so a trader whose position was closed or liquidated in this block looks untouched to the check
+    ctx.rule("R16.6", "a reply that ends a position keeps the (vamm, trader) pair's block stamp for the restriction check (the record is not simply removed)", 2)
+    from .em import EM as _EM
+    em6 = _EM(ctx)
+    for (st, root, depth, ckey) in sorted(em6.steps.values(), key=lambda x: (x[3], x[2])):
+        if depth == 0:
+            continue
+        removing = [q for q in st.ok_paths() if em6.removed_position(st, q)]
+        if not removing:
+            continue
+        ctx.inst("R16.6", "stamp-survives-end:%s:%s" % (short_fn(st.fn), st.label), False, st.fn.where(),
+                 "%d success paths remove the position record together with its block stamp: the (liquidated / closing) trader can open on this vAMM again in the same block although a liquidation happened in it" % len(removing))
